@@ -75,6 +75,12 @@ impl Cost {
 /// A non-decreasing, sub-additive cumulative cost prefix with positive
 /// increments: c(a+b) <= c(a) + c(b) inside the prefix.
 pub fn gen_cumulative(rng: &mut Rng, max_len: usize, cmax: u64) -> Vec<u64> {
+    gen_cumulative_opt(rng, max_len, cmax, false)
+}
+
+/// As `gen_cumulative`; with `allow_plateau` some increments may be zero (a job that adds no cost
+/// to the worst case of the run before it) — still non-decreasing and sub-additive.
+pub fn gen_cumulative_opt(rng: &mut Rng, max_len: usize, cmax: u64, allow_plateau: bool) -> Vec<u64> {
     let len = rng.usize(1, max_len.max(1));
     let c1 = rng.range(1, cmax.max(1));
     let mut v = vec![c1];
@@ -86,6 +92,10 @@ pub fn gen_cumulative(rng: &mut Rng, max_len: usize, cmax: u64) -> Vec<u64> {
             ub = ub.min(v[a - 1] + v[b - 1]);
         }
         let lo = v[n - 2] + 1;
+        if allow_plateau && rng.chance(1, 4) {
+            v.push(v[n - 2]);
+            continue;
+        }
         if lo > ub {
             break;
         }
@@ -96,15 +106,25 @@ pub fn gen_cumulative(rng: &mut Rng, max_len: usize, cmax: u64) -> Vec<u64> {
 }
 
 pub fn gen_cost(rng: &mut Rng, cmax: u64, scalar_only: bool) -> Cost {
+    gen_cost_opt(rng, cmax, scalar_only, false)
+}
+
+/// As `gen_cost`, additionally with zero-cost jobs (zero frames after the first, plateaus in cost curves).
+pub fn gen_cost_z(rng: &mut Rng, cmax: u64) -> Cost {
+    let z = rng.chance(1, 3);
+    gen_cost_opt(rng, cmax, false, z)
+}
+
+pub fn gen_cost_opt(rng: &mut Rng, cmax: u64, scalar_only: bool, zero: bool) -> Cost {
     if scalar_only || rng.chance(1, 2) {
         return Cost::Scalar(rng.log_range(1, cmax.max(1)));
     }
     match rng.range(0, 2) {
         0 => {
             let n = rng.usize(1, 4);
-            Cost::Multiframe((0..n).map(|_| rng.range(1, cmax.max(1))).collect())
+            Cost::Multiframe((0..n).map(|i| if zero && i > 0 && rng.chance(1, 3) { 0 } else { rng.range(1, cmax.max(1)) }).collect())
         }
-        1 => Cost::Curve(gen_cumulative(rng, 5, cmax)),
-        _ => Cost::Extrap(gen_cumulative(rng, 5, cmax)),
+        1 => Cost::Curve(gen_cumulative_opt(rng, 5, cmax, zero)),
+        _ => Cost::Extrap(gen_cumulative_opt(rng, 5, cmax, zero)),
     }
 }
